@@ -624,6 +624,8 @@ std::string do_fileblk(const Case& c) {
 	std::stringstream s1b;
 	int r1b = nif.Save(s1b, raw);
 	os << "save=" << r1 << ":" << b1.size() << " again=" << (s1b.str() == b1);
+	if (!c.get("out").empty())
+		std::ofstream(c.get("out"), std::ios::binary) << b1;	// the first save, for an independent reader
 	std::stringstream in(b1);
 	NifFile re;
 	int lrc = re.Load(in);
